@@ -157,8 +157,9 @@ func runC20(c *Ctx) {
 			}
 		}
 	}
+	runBigC20(c)
 	c.Meta(map[string]interface{}{
-		"rule":    "for every state reached by BFS (depth as stated), every query of the menu (all operators on indexed, unique and unindexed fields, And/Or pairs) is evaluated and kept; every write sequence of length <= 2 from the write menu (inserts below/inside/above the range, updates into/out of/within the range, deletes of members and non-members, DeleteAll) is applied; then Collect, Assign, One and Len on the kept value: only objects matched at evaluation time, none twice, survivors not silently lost. Non-trivial = distinct (state, query, write sequence) triples on non-empty collections.",
+		"rule":    "(larger results: for every result size 1..24 (thorough 70) six kept search values (=, >=, <=, unindexed, And-chain, union) x six rewriting scripts (inserts only; every third object deleted + inserts; as many deletions as insertions; updates out of and into the range; DeleteAll + inserts; delete-by-search + inserts): Collect, Collect again, late And, Reverse return only evaluation-time members, once, lose no survivor when they report no error; Delete through the kept value removes evaluation-time members only.) for every state reached by BFS (depth as stated), every query of the menu (all operators on indexed, unique and unindexed fields, And/Or pairs) is evaluated and kept; every write sequence of length <= 2 from the write menu (inserts below/inside/above the range, updates into/out of/within the range, deletes of members and non-members, DeleteAll) is applied; then Collect, Assign, One and Len on the kept value: only objects matched at evaluation time, none twice, survivors not silently lost. Non-trivial = distinct (state, query, write sequence) triples on non-empty collections.",
 		"queries": len(queries), "write_sequences": len(seqs), "configs": cfgs, "depth": depth,
 	})
 }
